@@ -203,6 +203,21 @@ fn periodic_phase(prop: &str, cfgs: Vec<Cfg>, o: Oracles, thorough: bool) -> Pha
     Phase { name: "periodic histories (every pattern of 1-2 core symbols repeated; thorough: also of 3) + one more operation", spec: s }
 }
 
+/// Scale phase: from start states built with bulk appends, the core alphabet
+/// plus bulk appends for a few more levels.
+fn scale_phase(prop: &str, cfgs: Vec<Cfg>, o: Oracles, thorough: bool) -> Phase {
+    let mut s = spec(prop, Alpha::Scale, if thorough { 3 } else { 2 }, cfgs, o, if thorough { 1500 } else { 40 });
+    s.roots = vec![
+        vec!["append_bulk40"],
+        vec!["append_bulk130"],
+        vec!["append_bulk40", "purge_mid"],
+        vec!["append_bulk130", "append_bulk130"],
+        vec!["append_bulk130", "append_bulk130", "flush"],
+        vec!["append_bulk40", "append_bulk40", "append_bulk40", "purge_mid", "flush"],
+    ];
+    Phase { name: "scale: bulk appends of 40 / 130 entries (dozens of rotations and chunk removals, caches above a hundred entries)", spec: s }
+}
+
 /// both chunk limits set; with the harness's record sizes sometimes the size
 /// limit (100 bytes: a head snapshot with user data + one State record) and
 /// sometimes the record limit (3) is reached first
@@ -254,6 +269,7 @@ pub fn seq_phases(prop: &str, tier: &str) -> Vec<Phase> {
                         },
                     },
                     periodic_phase(prop, vec![Cfg::records(2), Cfg::records(3)], o.clone(), thorough),
+                    scale_phase(prop, vec![Cfg::records(2), Cfg::records(200).with_cache(Some(2), None)], o.clone(), thorough),
                 ]
             } else {
                 vec![
@@ -274,6 +290,7 @@ pub fn seq_phases(prop: &str, tier: &str) -> Vec<Phase> {
                         },
                     },
                     periodic_phase(prop, vec![Cfg::records(2), Cfg::records(3)], o.clone(), thorough),
+                    scale_phase(prop, vec![Cfg::records(2), Cfg::records(200).with_cache(Some(2), None)], o.clone(), thorough),
                 ]
             }
         }
@@ -304,6 +321,12 @@ pub fn seq_phases(prop: &str, tier: &str) -> Vec<Phase> {
                 Phase { name: "core alphabet + restarts under changed limits", spec: s },
                 Phase { name: "tiny alphabet + restarts, deeper", spec: t },
                 p,
+                {
+                    let mut sc = scale_phase(prop, vec![Cfg::records(2), Cfg::records(200).with_cache(Some(2), None)], Oracles { semantics: true, restart_epilogue: true, ..Default::default() }, thorough);
+                    sc.spec.reopen_cfgs = reopen_cfgs[..2].to_vec();
+                    sc.spec.max_reopens = 1;
+                    sc
+                },
             ]
         }
         "C07" => {
@@ -388,6 +411,7 @@ pub fn seq_phases(prop: &str, tier: &str) -> Vec<Phase> {
                         },
                     },
                     periodic_phase(prop, vec![Cfg::records(2), Cfg::records(3), Cfg::size(100)], o.clone(), thorough),
+                    scale_phase(prop, vec![Cfg::records(1), Cfg::records(200)], o.clone(), thorough),
                 ]
             } else {
                 vec![
@@ -405,6 +429,7 @@ pub fn seq_phases(prop: &str, tier: &str) -> Vec<Phase> {
                         },
                     },
                     periodic_phase(prop, vec![Cfg::records(2), Cfg::records(3), Cfg::size(100)], o.clone(), thorough),
+                    scale_phase(prop, vec![Cfg::records(1), Cfg::records(200)], o.clone(), thorough),
                 ]
             }
         }
@@ -442,6 +467,7 @@ pub fn seq_phases(prop: &str, tier: &str) -> Vec<Phase> {
                 Phase { name: "the same start states, evictable entries drained after every operation", spec: d },
                 Phase { name: "core alphabet, drained after every operation", spec: d0 },
                 periodic_phase(prop, vec![Cfg::records(3).with_cache(Some(0), None), Cfg::records(2).with_cache(Some(2), Some(5))], Oracles { cache: true, drain_each: true, ..Default::default() }, thorough),
+                scale_phase(prop, vec![Cfg::records(200).with_cache(Some(2), None), Cfg::records(50).with_cache(Some(0), None), Cfg::records(200).with_cache(None, Some(100))], Oracles { cache: true, ..Default::default() }, thorough),
             ]
         }
         "C16" => {
@@ -805,7 +831,30 @@ fn base_spec(prop: &str, hist: Vec<SOp>, cfg: Cfg) -> HistSpec {
         lock_window: false,
         nested: false,
         fixed: false,
+        caller_first_only: false,
+        crash_final_only: false,
     }
+}
+
+/// Long-queue probe: `n` x (write; flush) issued before the worker gets to run
+/// (one schedule: the caller whenever it is enabled), then every acknowledgement
+/// awaited. The queue then holds `n` consecutive write requests — what a limit
+/// on the worker's batch size, or any other count in its loop, is compared with.
+/// No rotation (default chunk limits), so nothing but writes is queued.
+fn long_queue_spec(prop: &str, n: usize, votes: bool) -> HistSpec {
+    let mut syms = vec![];
+    for _ in 0..n {
+        syms.push(if votes { Sym::V } else { Sym::A });
+        syms.push(Sym::F);
+    }
+    for _ in 0..n {
+        syms.push(Sym::W);
+    }
+    let mut s = base_spec(prop, schedx::from_syms(&syms), Cfg::default());
+    s.caller_first_only = true;
+    s.fixed = true;
+    s.max_executions = 1;
+    s
 }
 
 fn has(syms: &[Sym], s: Sym) -> bool {
@@ -818,6 +867,14 @@ pub fn sched_specs(prop: &str, tier: &str) -> Vec<HistSpec> {
     let mut out = vec![];
     match prop {
         "C03" | "C05" => {
+            {
+                let mut s = long_queue_spec(prop, if thorough { 1100 } else { 300 }, true);
+                s.crash = true;
+                s.crash_final_only = true;
+                s.o_c03 = prop == "C03";
+                s.o_c05 = prop == "C05";
+                out.push(s);
+            }
             let alpha = [Sym::A, Sym::V, Sym::F, Sym::W, Sym::T, Sym::Pfirst, Sym::Alow, Sym::C, Sym::U];
             let max_len = if thorough { 5 } else { 3 };
             for len in 1..=max_len {
@@ -931,6 +988,11 @@ pub fn sched_specs(prop: &str, tier: &str) -> Vec<HistSpec> {
             }
         }
         "C04" => {
+            for votes in [false, true] {
+                let mut s = long_queue_spec(prop, if thorough { 1100 } else { 300 }, votes);
+                s.o_c04 = true;
+                out.push(s);
+            }
             let alpha = [Sym::A, Sym::F, Sym::W, Sym::Abig, Sym::T, Sym::Pfirst];
             let max_len = if thorough { 5 } else { 4 };
             for len in 1..=max_len {
